@@ -213,6 +213,16 @@ func runC08(c *Ctx) {
 		}
 	}
 
+	// export/import keeps pending acknowledgements and outstanding flags attached to their owners
+	if f := c.Fn("pk.Keeper.InitGenesis"); f != nil {
+		cs := PElemOf(PField(PParam("genState"), "ConsumerStates"))
+		c.ArgRoles(f, "pk.Keeper.SetSlashAcks", "genesis-slash-acks", "SetSlashAcks(cs.ChainId, cs.SlashDowntimeAck)", PField(cs, "ChainId"), PField(cs, "SlashDowntimeAck"))
+	}
+	if f := c.Fn("ck.Keeper.InitGenesis"); f != nil {
+		od := PElemOf(PField(PParam("state"), "OutstandingDowntimeSlashing"))
+		c.ArgRoles(f, "ck.Keeper.SetOutstandingDowntime", "genesis-outstanding-flags", "SetOutstandingDowntime(address of each exported entry)", PCall("sdk.ConsAddressFromBech32", 0, nil, PField(od, "ValidatorConsensusAddress")))
+	}
+
 	// ---- R4 -------------------------------------------------------------------------------------
 	c.Rule("R4", "consumer QueueSlashPacket: a downtime report for a validator with an outstanding report is dropped; otherwise the outstanding flag is set before the packet is queued", 5)
 	if f := c.Fn("ck.Keeper.QueueSlashPacket"); f != nil {
